@@ -1,4 +1,4 @@
-import KalignModel.Props.Pipeline
+import KalignModel.Props.PipelineFile
 #print axioms Kalign.weave
 #print axioms Kalign.degap_makeLinear
 #print axioms Kalign.C01_merge_integrity
@@ -12,3 +12,5 @@ import KalignModel.Props.Pipeline
 #print axioms Kalign.Pipeline.kalignRunWith_integrity
 #print axioms Kalign.Pipeline.kalignRun_integrity
 #print axioms Kalign.Pipeline.kalignRun_integrity_chars
+#print axioms Kalign.PipelineFile.kalignFile_integrity
+#print axioms Kalign.PipelineFile.kalignFile_no_fault
